@@ -13,7 +13,8 @@
 //!            | ["poll", cid] | ["cancel", cid]
 //!            | ["accept", lid, sid] | ["accept_bg", lid, sid] (a task really awaits accept) | ["drop_listener", lid]
 //!            | ["try_write"|"write", sid, [bytes]] | ["read"|"peek", sid, n] | ["shutdown", sid]
-//!            | ["write_bg", sid, [bytes]] (a task really awaits write_all)
+//!            | ["write_bg", sid, data] (a task really awaits write_all); data = [bytes] | {"pat": [s, len]}
+//!            | ["offer", sid, data] | ["try_write_rest"|"write_rest", sid] (write the rest of the offer, advance by the count)
 //!            | ["split", sid] | ["reunite", sid] | ["drop"|"drop_r"|"drop_w", sid]
 //!            | ["addrs", sid] | ["count"] | ["count_on", h]
 //! A successful connect `cid` registers the stream under the same id.
@@ -98,6 +99,8 @@ struct HostState {
     streams: HashMap<u64, StreamObj>,
     /// streams accepted by background accept tasks, not yet moved into `streams`
     inbox: Rc<RefCell<Vec<(u64, TcpStream)>>>,
+    /// buffers offered with "offer", written piecewise by "try_write_rest" / "write_rest"
+    offers: HashMap<u64, (Vec<u8>, usize)>,
     /// write halves handed back by background write tasks
     winbox: Rc<RefCell<Vec<(u64, OwnedWriteHalf)>>>,
     /// completions of background accepts / writes: [step, host, sid, result]
@@ -106,7 +109,13 @@ struct HostState {
     host: usize,
 }
 
+/// data of a write: an explicit byte array, or {"pat": [s, len]} = bytes (s + i) % 251 for i < len
 fn bytes_of(v: &Value) -> Vec<u8> {
+    if let Some(p) = v.get("pat") {
+        let s0 = p[0].as_u64().unwrap();
+        let len = p[1].as_u64().unwrap();
+        return (0..len).map(|i| ((s0 + i) % 251) as u8).collect();
+    }
     v.as_array().unwrap().iter().map(|x| x.as_u64().unwrap() as u8).collect()
 }
 
@@ -280,8 +289,22 @@ fn exec(cmd: &Value, st: &mut HostState, ips: &[IpAddr], v6: bool, cx: &mut Cont
                 json!("none")
             }
         },
-        "try_write" | "write" => {
-            let data = bytes_of(&cmd[2]);
+        "offer" => {
+            st.offers.insert(id, (bytes_of(&cmd[2]), 0));
+            json!("none")
+        }
+        "try_write" | "write" | "try_write_rest" | "write_rest" => {
+            // *_rest: write what is left of the offered buffer and advance by the returned count
+            let rest = name.ends_with("_rest");
+            let name = if rest { &name[..name.len() - 5] } else { name };
+            let data = if rest {
+                match st.offers.get(&id) {
+                    Some((b, off)) => b[*off..].to_vec(),
+                    None => return json!("invalid"),
+                }
+            } else {
+                bytes_of(&cmd[2])
+            };
             let Some(obj) = st.streams.get_mut(&id) else { return json!("invalid") };
             let r = match obj {
                 StreamObj::Whole(s) => {
@@ -298,7 +321,14 @@ fn exec(cmd: &Value, st: &mut HostState, ips: &[IpAddr], v6: bool, cx: &mut Cont
                 StreamObj::Split(_, None) => return json!("invalid"),
             };
             match r {
-                Poll::Ready(Ok(n)) => json!(["ok", n]),
+                Poll::Ready(Ok(n)) => {
+                    if rest {
+                        if let Some((_, off)) = st.offers.get_mut(&id) {
+                            *off += n;
+                        }
+                    }
+                    json!(["ok", n])
+                }
                 Poll::Ready(Err(e)) => err(&e),
                 Poll::Pending => json!("pending"),
             }
@@ -484,6 +514,7 @@ pub fn run_case(case: &Value) -> Value {
                     listeners: HashMap::new(),
                     connects: HashMap::new(),
                     streams: HashMap::new(),
+                    offers: HashMap::new(),
                     inbox: Rc::new(RefCell::new(Vec::new())),
                     winbox: Rc::new(RefCell::new(Vec::new())),
                     bg_log: bg_log.clone(),
